@@ -9,7 +9,7 @@ from pathlib import Path
 from harness import common, rules
 from harness.common import Ctx, NCPU
 
-COMP_NAMES = ["a", "ab", "b", "core", "api", "x1", "ui", "db"]
+COMP_NAMES = ["a", "ab", "b", "core", "api", "x1", "ui", "db", "m2", "m10", "svc_\u00e9", "cache", "auth", "z"]
 
 
 def denote(nodes, comp):
@@ -41,7 +41,7 @@ def conforms(nodes, edges, comps, rel, only):
 
 
 def gen_case(rng):
-    k = rng.randint(2, 6)
+    k = rng.randint(7, min(12, len(COMP_NAMES))) if rng.random() < 0.12 else rng.randint(2, 6)      # now and then a large diagram
     comps_short = rng.sample(COMP_NAMES, k)
     base = rng.choice(["r", "r.pkg"])
     comps = [base + "." + c for c in comps_short]
@@ -59,7 +59,7 @@ def gen_case(rng):
         nodes.add(base + "." + rng.choice(["bystander", "other", "zz"]))
     nodes = sorted(nodes)
     rel = set()
-    for _ in range(rng.randint(1, 7)):
+    for _ in range(rng.randint(1, 7) if k <= 6 else rng.randint(8, 20)):
         a, b = rng.choice(comps), rng.choice(comps)
         if a != b:
             rel.add((a, b))
